@@ -114,8 +114,26 @@ def lean_side(pid, reg, args):
         return res
     ok, msg = E.run_t1()
     res["notes"].append(msg)
+    t1_problem = None
     if not ok:
-        res["broken"].append("translator:T1(add_mod/sub_mod): " + msg)
+        t1_problem = "translator:T1(add_mod/sub_mod): " + msg
+    else:
+        # the specification of the translated helpers (`addMod_spec`, `subMod_spec`) must re-check
+        okA, logA = E.lake_build(["CircBuf.Lemmas.AddModSpec"])
+        if not okA:
+            t1_problem = "theorem:addMod_spec / subMod_spec no longer check on the translated add_mod / sub_mod: " + \
+                ", ".join(E.failed_decls(logA) or ["(see log)"])
+    if t1_problem:
+        # `add_mod`/`sub_mod` as they are now are not (shown to be) the functions the model uses.  The model
+        # keeps the pinned translation — for it the helpers are then tied to the source by the
+        # correspondence run only (C19 runs them directly on a lattice of arguments) — and the broken
+        # obligation is charged to the property that is *about* this arithmetic: C19.
+        import shutil
+        shutil.copy(os.path.join(E.VERIF, "translate", "AddMod.pinned.lean"),
+                    os.path.join(E.LEAN, "CircBuf", "Generated", "AddMod.lean"))
+        res["notes"].append("T1 fallback: the model keeps the pinned translation of add_mod/sub_mod (" + t1_problem + ")")
+        if pid == "C19":
+            res["broken"].append(t1_problem)
     ok3, msg3, untranslatable = E.run_t3()
     res["notes"].append(msg3)
     res["t3"] = dict(ok=ok3, message=msg3, untranslatable=[f"{f}: {w}" for f, w in untranslatable])
